@@ -3,6 +3,7 @@ import Nstd.Life.LemmasAlias
 import Nstd.Life.LemmasOps
 import Nstd.Life.LemmasSrc
 import Nstd.Life.LemmasBlk
+import Nstd.Life.LemmasFault
 /-
   Property theorems of the Life area.
 
@@ -33,6 +34,14 @@ theorem lifecycle_ok (ops : List Op) :
   obtain ⟨i2, t2⟩ := execAll_ok i1 destroyAll hd
   obtain ⟨hn, ha⟩ := destroyAll_effect i1 hd
   exact ⟨st', hd, chkOf st', trace_from_empty (t1.trans t2), clean_of_empty i2 hn ha⟩
+
+/-- C04 `no_fault`.  In every reachable state every operation is either rejected by its guard (`bad-op`:
+    index outside the container, unknown variable - the harness refuses the same lines) or executes all its
+    micro steps: the model never takes a "cannot happen" exit (`fault`), in particular not in the loops of the
+    alias operations (`l.insert(pos, l)`, `a.append(a)`, `s.remove(s)`, `m.insert(m)`, `a.append(&a[i], n)`).
+    Hence `lifecycle_ok` and the other theorems speak about complete executions, not about aborted ones. -/
+theorem no_fault (ops : List Op) (op : Op) : stepRes (run init ops) op ≠ Res.fault :=
+  Ops.no_fault ops op
 
 /-- C04, prefix form: at every point of every history the log so far is accepted by the checker
     (so no misuse has happened yet), whether or not the destructors follow. -/
